@@ -250,8 +250,8 @@ Definition mbO (s : pstate) (g : ghost) (c : N) : Prop :=
   forall co, tget (p_tree s) c = Some co -> o_opcode co = aml_pOpMethod -> mtyped s g c \/ (o_infoIndex co = methodIdx /\ kids g c = []).
 
 (** where the NamedFields of a field list go: right after the object, in its parent's list *)
-Definition finsert (g g' : ghost) (c : N) : Prop :=
-  forall par l1 tl, kids g par = l1 ++ c :: tl -> exists new, kids g' par = l1 ++ c :: new ++ tl.
+Definition finsert (s' : pstate) (g g' : ghost) (c : N) : Prop :=
+  forall par l1 tl, kids g par = l1 ++ c :: tl -> exists new, kids g' par = l1 ++ c :: new ++ tl /\ sibs g s' g' new.
 
 Definition okres (res : pres) : Prop := res = ROk \/ res = RShort.
 
@@ -278,7 +278,7 @@ Definition D_objargs (fuel : nat) : Prop := forall curObj s g,
   wp True (parseObjectArgs fuel curObj) s (fun res s' => exists g',
     FD s' g' /\ ExtD s g s' g' /\
     Fr (eq curObj) (eq curObj) (fun y => hasfl s curObj /\ In curObj (kids g y)) s g s' g' /\
-    finsert g g' curObj /\
+    finsert s' g g' curObj /\
     Psi s' <= Psi s + 3 /\ res <> RShort /\
     (res = ROk -> Psi s' <= Psi s + 1 /\ TM NoX s' g' /\ p_scopeStack s' = p_scopeStack s)).
 
@@ -291,7 +291,7 @@ Definition D_args (fuel : nat) : Prop := forall ii op fl af curObj argIndex s g,
   wp True (parseArgs fuel (op, fl, af) curObj argIndex) s (fun res s' => exists g',
     FD s' g' /\ ExtD s g s' g' /\
     Fr NoP (eq curObj) (fun y => has_fl af /\ In curObj (kids g y)) s g s' g' /\
-    finsert g g' curObj /\
+    finsert s' g g' curObj /\
     Psi s' <= Psi s + 3 /\
     (okres res -> Psi s' <= Psi s + cntu af argIndex /\ TM NoX s' g' /\ p_scopeStack s' = p_scopeStack s)).
 
@@ -303,7 +303,7 @@ Definition D_arg (fuel : nat) : Prop := forall op fl af curObj argTy s g,
     FD s' g' /\ ExtD s g s' g' /\
     Fr NoP (eq curObj) (fun y => argTy = aml_pArgTypeFieldList /\ In curObj (kids g y)) s g s' g' /\
     (okres res -> argTy <> aml_pArgTypeFieldList -> kids g' curObj = kids g curObj) /\
-    (argTy = aml_pArgTypeFieldList -> finsert g g' curObj) /\
+    (argTy = aml_pArgTypeFieldList -> finsert s' g g' curObj) /\
     fresh_root g g' a /\ Psi s' <= Psi s + 2 /\
     (okres res -> Psi s' <= Psi s + ucost argTy /\ p_scopeStack s' = p_scopeStack s /\
                   TM (fun m => m = curObj /\ nolook argTy = true) s' g') /\
